@@ -24,5 +24,6 @@ def run(ctx):
     # for the plain and the with-state builder alike (R03.1, decided on the same code as C03)
     import rules.C03 as C03
     ctx.step(C03.r03_1, ctx)
+    ctx.step(C03.r03_3, ctx)        # the cut-off table: "in-range keys" of a bounded search
     ctx.step(streams.seek_rules, ctx, R41, R42, None, None, want_c03=False, want_c04=True)
     ctx.step(streams.next_rules, ctx, R41, R42, R43, R44, R45, None, None, want_c03=False, want_c04=True)
